@@ -6,6 +6,7 @@
 #include <signal.h>
 #include <stdlib.h>
 #include <string.h>
+#include <sched.h>
 #include <sys/mman.h>
 #include <unistd.h>
 
@@ -82,9 +83,14 @@ int64_t *arg_ilist(const vcase *c, int i, size_t *n) {
     return v;
 }
 
+long arg_oom(const vcase *c) {
+    if (c->argc > 0 && !strncmp(c->argv[c->argc - 1], "@oom=", 5)) return atol(c->argv[c->argc - 1] + 5);
+    return 0;
+}
+
 /* ---- output ---- */
-static char *g_line;
-static size_t g_cap, g_len;
+static __thread char *g_line;
+static __thread size_t g_cap, g_len;
 static void lput(const char *s, size_t n) {
     if (g_len + n + 2 > g_cap) {
         g_cap = (g_len + n + 2) * 2;
@@ -100,7 +106,7 @@ void out_u64(const char *k, uint64_t v) { char b[32]; lkey(k); snprintf(b, sizeo
 void out_i64(const char *k, int64_t v) { char b[32]; lkey(k); snprintf(b, sizeof b, "%" PRId64, v); lputs(b); }
 void out_str(const char *k, const char *v) { lkey(k); lputs(v); }
 void out_hex(const char *k, const uint8_t *p, size_t n) {
-    static const char *hx = "0123456789abcdef";
+    static const char hx[] = "0123456789abcdef";
     lkey(k); lputs("x");
     char *t = malloc(2 * n + 1);
     for (size_t i = 0; i < n; i++) { t[2 * i] = hx[p[i] >> 4]; t[2 * i + 1] = hx[p[i] & 15]; }
@@ -162,18 +168,164 @@ gpage gpage_new(const uint8_t *src, size_t len) {
 }
 void gpage_free(gpage *g) { munmap(g->map, g->maplen); g->map = NULL; }
 
-/* ---- main loop ---- */
-static sigjmp_buf g_jmp;
-static volatile int g_in_case;
+/* ---- allocation interposition (only in builds linked with
+ * -Wl,--wrap=malloc,--wrap=calloc,--wrap=realloc,--wrap=free) ---- */
+#ifdef VDRV_WRAP_ALLOC
+void *__real_malloc(size_t);
+void *__real_calloc(size_t, size_t);
+void *__real_realloc(void *, size_t);
+void __real_free(void *);
+static __thread int a_on;        /* counting/faulting active (inside a handler) */
+static __thread long a_count;    /* allocations attempted so far in this case */
+static __thread long a_fail_at;  /* 1-based index of the allocation to fail; 0 = none */
+static __thread long a_live;     /* blocks allocated minus blocks freed inside the case */
+static int a_should_fail(void) {
+    if (!a_on) return 0;
+    a_count++;
+    return a_fail_at && a_count == a_fail_at;
+}
+void *__wrap_malloc(size_t n) {
+    if (a_should_fail()) return NULL;
+    void *p = __real_malloc(n);
+    if (a_on && p) a_live++;
+    return p;
+}
+void *__wrap_calloc(size_t a, size_t b) {
+    if (a_should_fail()) return NULL;
+    void *p = __real_calloc(a, b);
+    if (a_on && p) a_live++;
+    return p;
+}
+void *__wrap_realloc(void *q, size_t n) {
+    if (a_should_fail()) return NULL;
+    void *p = __real_realloc(q, n);
+    if (a_on && p && !q) a_live++;
+    if (a_on && q && n == 0 && !p) a_live--;
+    return p;
+}
+void __wrap_free(void *p) {
+    if (a_on && p) a_live--;
+    __real_free(p);
+}
+/* harness-side allocations must not count: handlers bracket library calls */
+void valloc_begin(long fail_at) { a_count = 0; a_live = 0; a_fail_at = fail_at; a_on = 1; }
+long valloc_end(long *live) { a_on = 0; if (live) *live = a_live; return a_count; }
+int valloc_available(void) { return 1; }
+#else
+void valloc_begin(long fail_at) { (void)fail_at; }
+long valloc_end(long *live) { if (live) *live = 0; return 0; }
+int valloc_available(void) { return 0; }
+#endif
+
+/* ---- running one case ---- */
+static __thread sigjmp_buf g_jmp;
+static __thread volatile int g_in_case;
 static void on_fault(int sig) {
     if (g_in_case) siglongjmp(g_jmp, sig);
     _exit(3);
 }
 
+static unsigned g_poison = 0; /* 0 = no stack poisoning */
+static void __attribute__((noinline)) poison_stack(unsigned pat) {
+    volatile uint8_t big[96 * 1024];
+    for (size_t i = 0; i < sizeof big; i++) big[i] = (uint8_t)(pat + (i >> 3));
+    __asm__ volatile("" ::: "memory");
+}
+
+/* run the case in `text` (modified in place); returns a malloc'd output line */
+static char *run_case(char *text) {
+    vcase c;
+    c.argc = 0;
+    char *save = NULL;
+    char *echo = strdup(text);
+    char *tok = strtok_r(text, " ", &save);
+    c.api = tok;
+    while ((tok = strtok_r(NULL, " ", &save)) != NULL && c.argc < MAXARGS) c.argv[c.argc++] = tok;
+    vhandler h = NULL;
+    for (int i = 0; i < g_ntab; i++) if (!strcmp(g_tab[i].name, c.api)) { h = g_tab[i].fn; break; }
+    if (!h) die("unknown api", c.api);
+    g_len = 0;
+    if (g_line) g_line[0] = 0;
+    int sig;
+    const char *fault = NULL;
+    if (g_poison) poison_stack(g_poison);
+    g_in_case = 1;
+    if ((sig = sigsetjmp(g_jmp, 1)) == 0) {
+        h(&c);
+        g_in_case = 0;
+    } else {
+        g_in_case = 0;
+        valloc_end(NULL);
+        fault = sig == SIGSEGV || sig == SIGBUS ? "segv" : sig == SIGABRT ? "abort" : sig == SIGFPE ? "fpe" : "ill";
+    }
+    size_t n = strlen(echo) + 4 + (fault ? 16 : (g_line ? strlen(g_line) : 0)) + 1;
+    char *out = malloc(n);
+    if (fault) snprintf(out, n, "%s -> fault=%s", echo, fault);
+    else snprintf(out, n, "%s ->%s", echo, g_line ? g_line : "");
+    free(echo);
+    return out;
+}
+
+/* ---- modes ---- */
+static char **g_cases;
+static size_t g_ncases;
+static void read_cases(const char *path) {
+    FILE *f = strcmp(path, "-") ? fopen(path, "r") : stdin;
+    if (!f) die("cannot open", path);
+    char *line = NULL;
+    size_t cap = 0, capc = 0;
+    ssize_t n;
+    while ((n = getline(&line, &cap, f)) > 0) {
+        while (n > 0 && (line[n - 1] == '\n' || line[n - 1] == '\r')) line[--n] = 0;
+        if (n == 0 || line[0] == '#') continue;
+        if (g_ncases == capc) { capc = capc ? capc * 2 : 1024; g_cases = realloc(g_cases, capc * sizeof(char *)); }
+        g_cases[g_ncases++] = strdup(line);
+    }
+    free(line);
+    if (f != stdin) fclose(f);
+}
+
+static uint64_t g_rng = 88172645463325252ULL;
+static uint64_t rnd(void) { g_rng ^= g_rng << 13; g_rng ^= g_rng >> 7; g_rng ^= g_rng << 17; return g_rng; }
+
+#include <pthread.h>
+typedef struct { int id; int nthreads; char **expect; long mismatches; char *first; } tctx;
+static void *thread_main(void *arg) {
+    tctx *t = arg;
+    /* every thread runs every case, starting at a different offset so that
+     * different codecs overlap in time */
+    for (size_t k = 0; k < g_ncases; k++) {
+        size_t i = (k + (size_t)t->id * (g_ncases / (size_t)t->nthreads + 1)) % g_ncases;
+        char *copy = strdup(g_cases[i]);
+        char *out = run_case(copy);
+        if (strcmp(out, t->expect[i])) {
+            if (!t->mismatches) t->first = strdup(out);
+            t->mismatches++;
+        }
+        free(out);
+        free(copy);
+        if ((k & 63) == 0) sched_yield();
+    }
+    return NULL;
+}
+
 int main(int argc, char **argv) {
-    if (argc < 2) die("usage: driver <casefile>", NULL);
-    FILE *f = strcmp(argv[1], "-") ? fopen(argv[1], "r") : stdin;
-    if (!f) die("cannot open", argv[1]);
+    int ai = 1;
+    int threads = 0;
+    long shuffle = -1, pred = -1;
+    int oom = 0;
+    long oom_cap = 64;
+    while (ai < argc && !strncmp(argv[ai], "--", 2)) {
+        if (!strcmp(argv[ai], "--threads")) threads = atoi(argv[++ai]);
+        else if (!strcmp(argv[ai], "--shuffle")) shuffle = atol(argv[++ai]);
+        else if (!strcmp(argv[ai], "--pred")) pred = atol(argv[++ai]);
+        else if (!strcmp(argv[ai], "--poison")) g_poison = (unsigned)strtoul(argv[++ai], NULL, 0);
+        else if (!strcmp(argv[ai], "--oom")) oom = 1;
+        else if (!strcmp(argv[ai], "--oom-cap")) oom_cap = atol(argv[++ai]);
+        else die("unknown option", argv[ai]);
+        ai++;
+    }
+    if (ai >= argc) die("usage: driver [--threads N | --shuffle seed | --pred seed | --poison P | --oom] <casefile>", NULL);
     struct sigaction sa;
     memset(&sa, 0, sizeof sa);
     sa.sa_handler = on_fault;
@@ -183,41 +335,82 @@ int main(int argc, char **argv) {
     sigaction(SIGFPE, &sa, NULL);
     sigaction(SIGILL, &sa, NULL);
     sigaction(SIGABRT, &sa, NULL);
-    char *line = NULL;
-    size_t cap = 0;
-    ssize_t n;
     char *outbuf = malloc(1 << 20);
     setvbuf(stdout, outbuf, _IOFBF, 1 << 20);
-    while ((n = getline(&line, &cap, f)) > 0) {
-        while (n > 0 && (line[n - 1] == '\n' || line[n - 1] == '\r')) line[--n] = 0;
-        if (n == 0 || line[0] == '#') continue;
-        vcase c;
-        c.argc = 0;
-        char *save = NULL;
-        char *tok = strtok_r(line, " ", &save);
-        c.api = tok;
-        while ((tok = strtok_r(NULL, " ", &save)) != NULL && c.argc < MAXARGS) c.argv[c.argc++] = tok;
-        vhandler h = NULL;
-        for (int i = 0; i < g_ntab; i++) if (!strcmp(g_tab[i].name, c.api)) { h = g_tab[i].fn; break; }
-        if (!h) die("unknown api", c.api);
-        g_len = 0;
-        if (g_line) g_line[0] = 0;
-        /* echo the case */
-        fputs(c.api, stdout);
-        for (int i = 0; i < c.argc; i++) { fputc(' ', stdout); fputs(c.argv[i], stdout); }
-        fputs(" ->", stdout);
-        int sig;
-        g_in_case = 1;
-        if ((sig = sigsetjmp(g_jmp, 1)) == 0) {
-            h(&c);
-            g_in_case = 0;
-            if (g_line) fputs(g_line, stdout);
-        } else {
-            g_in_case = 0;
-            fprintf(stdout, " fault=%s", sig == SIGSEGV || sig == SIGBUS ? "segv" : sig == SIGABRT ? "abort" : sig == SIGFPE ? "fpe" : "ill");
-        }
-        fputc('\n', stdout);
+    read_cases(argv[ai]);
+
+    if (threads > 0) {
+        /* sequential reference, then N threads over the same cases */
+        char **expect = malloc(g_ncases * sizeof(char *));
+        for (size_t i = 0; i < g_ncases; i++) { char *c = strdup(g_cases[i]); expect[i] = run_case(c); free(c); }
+        pthread_t *th = malloc((size_t)threads * sizeof *th);
+        tctx *tc = calloc((size_t)threads, sizeof *tc);
+        for (int t = 0; t < threads; t++) { tc[t].id = t; tc[t].nthreads = threads; tc[t].expect = expect; pthread_create(&th[t], NULL, thread_main, &tc[t]); }
+        long mism = 0;
+        for (int t = 0; t < threads; t++) { pthread_join(th[t], NULL); mism += tc[t].mismatches; }
+        printf("threads=%d cases=%zu mismatches=%ld\n", threads, g_ncases, mism);
+        for (int t = 0; t < threads; t++) if (tc[t].first) { printf("MISMATCH thread=%d %s\n", t, tc[t].first); break; }
+        fflush(stdout);
+        return 0;
     }
+
+    if (oom) {
+        /* every case once normally (counting allocations), then once per
+         * allocation index with that allocation failing */
+        for (size_t i = 0; i < g_ncases; i++) {
+            char *c = strdup(g_cases[i]);
+            char *o = run_case(c);
+            free(c);
+            /* handlers report the number of allocations as nalloc=<n> */
+            long n = 0;
+            char *q = strstr(o, " nalloc=");
+            if (q) n = atol(q + 8);
+            puts(o);
+            free(o);
+            if (n > oom_cap) n = oom_cap;
+            for (long k = 1; k <= n; k++) {
+                size_t L = strlen(g_cases[i]) + 32;
+                char *c2 = malloc(L);
+                snprintf(c2, L, "%s @oom=%ld", g_cases[i], k);
+                char *o2 = run_case(c2);
+                puts(o2);
+                free(o2);
+                free(c2);
+            }
+        }
+        fflush(stdout);
+        return 0;
+    }
+
+    size_t *order = malloc((g_ncases + 1) * sizeof(size_t));
+    for (size_t i = 0; i < g_ncases; i++) order[i] = i;
+    if (shuffle >= 0) {
+        g_rng ^= (uint64_t)shuffle * 0x9E3779B97F4A7C15ULL + 1;
+        for (size_t i = g_ncases; i > 1; i--) { size_t j = (size_t)(rnd() % i); size_t t = order[i - 1]; order[i - 1] = order[j]; order[j] = t; }
+    }
+    if (pred >= 0) g_rng ^= (uint64_t)pred * 0xD1B54A32D192ED03ULL + 1;
+    char **outs = calloc(g_ncases + 1, sizeof(char *));
+    for (size_t k = 0; k < g_ncases; k++) {
+        size_t i = order[k];
+        if (pred >= 0 && g_ncases > 1) {
+            /* run some other case first (prefer the same api with the same
+             * number of arguments), discard its output */
+            size_t j = (size_t)(rnd() % g_ncases);
+            size_t apilen = strcspn(g_cases[i], " ");
+            for (size_t tries = 0; tries < 64; tries++) {
+                size_t cand = (size_t)(rnd() % g_ncases);
+                if (cand != i && !strncmp(g_cases[cand], g_cases[i], apilen + 1)) { j = cand; break; }
+            }
+            char *c = strdup(g_cases[j]);
+            char *o = run_case(c);
+            free(o);
+            free(c);
+        }
+        char *c = strdup(g_cases[i]);
+        outs[i] = run_case(c);
+        free(c);
+    }
+    for (size_t i = 0; i < g_ncases; i++) { puts(outs[i]); free(outs[i]); }
     fflush(stdout);
     return 0;
 }
